@@ -934,7 +934,7 @@ func blockCase(i int, rng *vf.RNG, pool []*poolTx) {
 	}
 
 	// ------------------------------------------------ byte level: flips, truncations, appended bytes
-	capFlip, capTrunc := vf.N(768, 1536), vf.N(256, 512)
+	capFlip, capTrunc := vf.N(768, 1024), vf.N(256, 384)
 	if heavy {
 		capFlip, capTrunc = 64, 32
 	}
@@ -1101,7 +1101,7 @@ func main() {
 	}
 	r.Extra("tx_pool", len(pool))
 	minimalAltKeyCases()
-	nblocks := vf.N(300, 8000)
+	nblocks := vf.N(300, 4000)
 	vf.Parallel(nblocks, runtime.NumCPU(), func(i int) { blockCase(i, rng.Sub(uint64(i)), pool) })
 	merkleCases(rng.Sub(2 << 40))
 
